@@ -373,6 +373,8 @@ package consensus
 //@   ensures @A1-resolvable result == nil && 0 <= k && k < len(txn.SiafundInputs) ==> par.1 && par.0.ID == in.ParentID
 //@   ensures @K1-unlock-hash result == nil && 0 <= k && k < len(txn.SiafundInputs) ==> in.UnlockConditions.UnlockHash() == par.0.SiafundOutput.Address || devOverride
 //@   ensures @B2-count-preserved result == nil ==> sumSFParents(*ms, ts, txn.SiafundInputs, len(txn.SiafundInputs)) == sumSFO(txn.SiafundOutputs, len(txn.SiafundOutputs))
+//@   split-returns
+//@   ensures @sufficient (forall i in 0..len(txn.SiafundInputs) :: txn.SiafundInputs[i].UnlockConditions.Timelock <= cheight(ms.base) && !has(ms.spends, txn.SiafundInputs[i].ParentID) && ms.siafundElement(ts, txn.SiafundInputs[i].ParentID).1 && (txn.SiafundInputs[i].UnlockConditions.UnlockHash() == ms.siafundElement(ts, txn.SiafundInputs[i].ParentID).0.SiafundOutput.Address || (cheight(ms.base) >= ms.base.Network.HardforkDevAddr.Height && ms.siafundElement(ts, txn.SiafundInputs[i].ParentID).0.SiafundOutput.Address == ms.base.Network.HardforkDevAddr.OldAddress && txn.SiafundInputs[i].UnlockConditions.UnlockHash() == ms.base.Network.HardforkDevAddr.NewAddress))) && sumSFParents(*ms, ts, txn.SiafundInputs, len(txn.SiafundInputs)) == sumSFO(txn.SiafundOutputs, len(txn.SiafundOutputs)) ==> result == nil
 
 //@ func validateMinimumValues
 //@   pure
@@ -602,7 +604,13 @@ package consensus
 //@   ensures @ephemeral-rejected-from-fix-height result == nil ==> cheight(ms.base) < ms.base.Network.HardforkV2.EphemeralOutputHeight
 //@   ensures @ephemeral-content-legacy-window result == nil ==> sfi.Parent.SiafundOutput == e.SiafundOutput && sfi.Parent.ClaimStart == e.ClaimStart
 
+//@ spec v2scInOK(ms MidState, txn types.V2Transaction, k int) bool = !has(ms.spends, txn.SiacoinInputs[k].Parent.ID) && txn.SiacoinInputs[k].Parent.MaturityHeight <= cheight(ms.base) && (txn.SiacoinInputs[k].Parent.StateElement.LeafIndex == types.UnassignedLeafIndex ? ephSC(ms, txn.SiacoinInputs[k]) : ms.base.Elements.containsUnspentSiacoinElement(txn.SiacoinInputs[k].Parent.Share())) && txn.SiacoinInputs[k].SatisfiedPolicy.Policy.Address() == txn.SiacoinInputs[k].Parent.SiacoinOutput.Address && txn.SiacoinInputs[k].SatisfiedPolicy.Policy.Verify(ms.base.Index.Height, ms.base.medianTimestamp(), ms.base.InputSigHash(txn), txn.SiacoinInputs[k].SatisfiedPolicy.Signatures, txn.SiacoinInputs[k].SatisfiedPolicy.Preimages) == nil
 //@ func validateV2Siacoins
+//@   split-returns
+//@   invariant loop#1 @spent-index forall id types.SiacoinOutputID :: has(spent, id) ==> 0 <= spent[id] && spent[id] < $n && txn.SiacoinInputs[spent[id]].Parent.ID == id
+//@   invariant loop#2 @suff-in (forall i in 0..len(txn.SiacoinInputs)+1 :: sumV2Parents(txn.SiacoinInputs, i) < types.M128) && $n < len(txn.SiacoinInputs) ==> sumV2Parents(txn.SiacoinInputs, $n + 1) < types.M128
+//@   invariant loop#5 @suff-roll (forall i in 0..len(txn.FileContractResolutions)+1 :: sumV2Parents(txn.SiacoinInputs, len(txn.SiacoinInputs)) + sumRollover(txn.FileContractResolutions, i) < types.M128) && $n < len(txn.FileContractResolutions) ==> sumV2Parents(txn.SiacoinInputs, len(txn.SiacoinInputs)) + sumRollover(txn.FileContractResolutions, $n + 1) < types.M128
+//@   ensures @sufficient (forall i in 0..len(txn.SiacoinInputs) :: v2scInOK(*ms, txn, i)) && (forall i in 0..len(txn.SiacoinInputs) :: forall j in 0..i :: txn.SiacoinInputs[j].Parent.ID != txn.SiacoinInputs[i].Parent.ID) && (forall i in 0..len(txn.SiacoinInputs)+1 :: sumV2Parents(txn.SiacoinInputs, i) < types.M128) && (forall i in 0..len(txn.SiacoinOutputs) :: types.u128(txn.SiacoinOutputs[i].Value) != 0) && (forall i in 0..len(txn.FileContractResolutions)+1 :: sumV2Parents(txn.SiacoinInputs, len(txn.SiacoinInputs)) + sumRollover(txn.FileContractResolutions, i) < types.M128) && sumV2Parents(txn.SiacoinInputs, len(txn.SiacoinInputs)) + sumRollover(txn.FileContractResolutions, len(txn.FileContractResolutions)) == sumSCO(txn.SiacoinOutputs, len(txn.SiacoinOutputs)) + sumV2FC(ms.base, txn.FileContracts, len(txn.FileContracts)) + sumRenewalCost(ms.base, txn.FileContractResolutions, len(txn.FileContractResolutions)) + types.u128(txn.MinerFee) ==> result == nil
 //@   pure
 //@   prop C09
 //@   abstract
@@ -667,6 +675,9 @@ package consensus
 //@   ensures @K3-policy result == nil && 0 <= k && k < len(txn.SiafundInputs) ==> in.SatisfiedPolicy.Policy.Address() == in.Parent.SiafundOutput.Address && in.SatisfiedPolicy.Policy.Verify(ms.base.Index.Height, ms.base.medianTimestamp(), ms.base.InputSigHash(txn), in.SatisfiedPolicy.Signatures, in.SatisfiedPolicy.Preimages) == nil
 //@   ensures @Z2-nonzero result == nil && 0 <= k && k < len(txn.SiafundOutputs) ==> txn.SiafundOutputs[k].Value != 0
 //@   ensures @B7-count-preserved result == nil ==> sumV2SFParents(txn.SiafundInputs, len(txn.SiafundInputs)) == sumSFO(txn.SiafundOutputs, len(txn.SiafundOutputs))
+//@   split-returns
+//@   invariant loop#1 @spent-index forall id types.SiafundOutputID :: has(spent, id) ==> 0 <= spent[id] && spent[id] < $n && txn.SiafundInputs[spent[id]].Parent.ID == id
+//@   ensures @sufficient (forall i in 0..len(txn.SiafundInputs) :: !has(ms.spends, txn.SiafundInputs[i].Parent.ID) && txn.SiafundInputs[i].Parent.StateElement.LeafIndex != types.UnassignedLeafIndex && ms.base.Elements.containsUnspentSiafundElement(txn.SiafundInputs[i].Parent.Share()) && txn.SiafundInputs[i].SatisfiedPolicy.Policy.Address() == txn.SiafundInputs[i].Parent.SiafundOutput.Address && txn.SiafundInputs[i].SatisfiedPolicy.Policy.Verify(ms.base.Index.Height, ms.base.medianTimestamp(), ms.base.InputSigHash(txn), txn.SiafundInputs[i].SatisfiedPolicy.Signatures, txn.SiafundInputs[i].SatisfiedPolicy.Preimages) == nil) && (forall i in 0..len(txn.SiafundInputs) :: forall j in 0..i :: txn.SiafundInputs[j].Parent.ID != txn.SiafundInputs[i].Parent.ID) && (forall i in 0..len(txn.SiafundOutputs) :: txn.SiafundOutputs[i].Value != 0) && sumV2SFParents(txn.SiafundInputs, len(txn.SiafundInputs)) == sumSFO(txn.SiafundOutputs, len(txn.SiafundOutputs)) ==> result == nil
 
 //@ func validateAttestations
 //@   pure
@@ -1027,6 +1038,8 @@ package consensus
 //@   requires @decoded-txn-has-resolutions forall j in 0..len(txn.FileContractResolutions) :: !isnil(txn.FileContractResolutions[j].Resolution)
 //@   ensures @runs-every-validator result == nil ==> cheight(ms.base) >= ms.base.Network.HardforkV2.AllowHeight && validateV2CurrencyOverflow(ms, txn) == nil && validateV2Siacoins(ms, txn) == nil && validateV2Siafunds(ms, txn) == nil && validateV2FileContracts(ms, txn) == nil && validateAttestations(ms, txn) == nil && validateFoundationUpdate(ms, txn) == nil
 //@   ensures @weight result == nil ==> ms.base.V2TransactionWeight(txn) != 0 && ms.base.V2TransactionWeight(txn) <= ms.base.MaxBlockWeight()
+//@   split-returns
+//@   ensures @accepts-when-every-validator-does cheight(ms.base) >= ms.base.Network.HardforkV2.AllowHeight && validateV2CurrencyOverflow(ms, txn) == nil && ms.base.V2TransactionWeight(txn) != 0 && ms.base.V2TransactionWeight(txn) <= ms.base.MaxBlockWeight() && validateV2Siacoins(ms, txn) == nil && validateV2Siafunds(ms, txn) == nil && validateV2FileContracts(ms, txn) == nil && validateAttestations(ms, txn) == nil && validateFoundationUpdate(ms, txn) == nil ==> result == nil
 
 //@ func ValidateTransaction
 //@   abstract
@@ -1039,6 +1052,8 @@ package consensus
 //@   requires @existing-contracts-well-formed forall i in 0..len(txn.FileContractRevisions) :: ms.fileContractElement(ts, txn.FileContractRevisions[i].ParentID).1 ==> v1fcSumsOK(ms.fileContractElement(ts, txn.FileContractRevisions[i].ParentID).0.FileContract)
 //@   ensures @runs-every-validator result == nil ==> cheight(ms.base) < ms.base.Network.HardforkV2.RequireHeight && validateCurrencyOverflow(ms, txn) == nil && validateMinimumValues(ms, txn) == nil && validateSiacoins(ms, txn, ts) == nil && validateSiafunds(ms, txn, ts) == nil && validateFileContracts(ms, txn, ts) == nil && validateArbitraryData(ms, txn) == nil && validateSignatures(ms, txn) == nil
 //@   ensures @weight result == nil ==> ms.base.TransactionWeight(txn) <= ms.base.MaxBlockWeight()
+//@   split-returns
+//@   ensures @accepts-when-every-validator-does cheight(ms.base) < ms.base.Network.HardforkV2.RequireHeight && validateCurrencyOverflow(ms, txn) == nil && ms.base.TransactionWeight(txn) <= ms.base.MaxBlockWeight() && validateMinimumValues(ms, txn) == nil && validateSiacoins(ms, txn, ts) == nil && validateSiafunds(ms, txn, ts) == nil && validateFileContracts(ms, txn, ts) == nil && validateArbitraryData(ms, txn) == nil && validateSignatures(ms, txn) == nil ==> result == nil
 
 // ------------------------------------------------------------ validation.go: the v2 overflow pre-check (functional contract)
 // What validateV2CurrencyOverflow establishes, in the form the v2 validators assume it.
